@@ -36,7 +36,11 @@ def run_case(case: Dict[str, Any]) -> CaseResult:
     P = case["prog"]
     M = Model({"prog": P, "mc": case.get("mc", 2)})
     oargs = [prog.dec(a) for a in case["orig_args"]]
-    b = prog.build(P, mc=case.get("mc", 2))
+    b = prog.build(P, mc=case.get("mc", 2), is_async=bool(case.get("orig_async")))
+
+    def _now(r: Any) -> Any:
+        return asyncio.run(r) if asyncio.iscoroutine(r) else r
+
     pre: Dict[str, Any] = {}
     R0 = prog.Ref(op=1)
     ref_orig = prog.ref_run(P, oargs, R0)
@@ -44,7 +48,7 @@ def run_case(case: Dict[str, Any]) -> CaseResult:
         ex0 = sched.Exec("free")
         ex0.op = 1
         with ex0:
-            b.dag.setup()
+            _now(b.dag.setup())
         pre = {s: R0.values[s] for s in M.sites if M.spec[s].get("setup")}
     if case.get("draw_first"):
         from ..hist import draw_quietly
@@ -57,7 +61,7 @@ def run_case(case: Dict[str, Any]) -> CaseResult:
         ex0.op = 1
         try:
             with ex0:
-                b.dag.executor()(*[prog.dec(a) for a in case["exec_first"]])
+                _now(b.dag.executor()(*[prog.dec(a) for a in case["exec_first"]]))
         except Exception:  # noqa: BLE001 - not what this check judges
             pass
         pre = {s: R0.values[s] for s in M.sites if M.spec[s].get("setup")}
@@ -115,7 +119,7 @@ def run_case(case: Dict[str, Any]) -> CaseResult:
     ex3.op = 3
     try:
         with ex3:
-            v = b.dag(*oargs)
+            v = _now(b.dag(*oargs))
         R3 = prog.Ref(op=3, pre=dict(pre))
         want = prog.ref_run(P, oargs, R3)
         if v != want:
@@ -261,6 +265,7 @@ def cases(draw: Any, tier: str) -> Dict[str, Any]:
     # an executor run with its own arguments before composing: compose must still see the original's defaults only
     case["exec_first"] = draw(st.sampled_from([None, None, [prog.enc(draw(st.sampled_from([7, "z"]))), prog.enc(draw(st.sampled_from([8, "y"])))]]))
     case["draw_first"] = draw(st.sampled_from([True, False, False, False]))
+    case["orig_async"] = draw(st.sampled_from([False, False, True]))  # the original may be an AsyncDAG
     case["as_async"] = draw(st.sampled_from([None, None, False, True]))
     if ins and draw(st.integers(0, 11)) == 0:
         # ambiguous alias: a group tag carried by two sites replaces one input alias
